@@ -222,7 +222,7 @@ func (in *Interp) checkAssert(label string, c Term, note string) {
 		R.noteAssert(in, label, "unsat", len(neg.E), dt)
 		if in.opts.CrossEvery > 0 && R.crossDue(in.opts.CrossEvery) {
 			for _, other := range in.opts.CrossSolvers {
-				cr := crossCheck(other, append([]string{}, in.sess.script...), neg.E, in.opts.TimeoutMS)
+				cr := crossCheck(other, append([]string{}, in.sess.script...), neg.E, minInt(in.opts.TimeoutMS, 15000))
 				if cr == Sat {
 					R.crossDisagree(in, label, other)
 				}
@@ -238,6 +238,13 @@ func (in *Interp) checkAssert(label string, c Term, note string) {
 		}
 		in.assume(c)
 	default:
+		// fallback for arithmetic kernels: cvc5 with the integer encoding of bit-vectors, one shot on the whole path script
+		if fr := crossCheck("cvc5-int", append([]string{}, in.sess.script...), neg.E, in.opts.TimeoutMS); fr == Unsat {
+			R.noteAssert(in, label, "unsat", len(neg.E), time.Since(t0))
+			R.noteFallback(label)
+			in.assume(c)
+			return
+		}
 		R.noteAssert(in, label, "unknown", len(neg.E), dt)
 		R.addUnknown(in, label)
 	}
@@ -956,4 +963,11 @@ func pBlobClearTerms(in *Interp, fn *ssa.Function, a []Value) Value {
 	}
 	walk(a[0], 0)
 	return mkBV(64, uint64(n))
+}
+
+func minInt(a, b int) int {
+	if a < b {
+		return a
+	}
+	return b
 }
